@@ -599,7 +599,11 @@ where
         let wait_item = Item::Wait(wg.add(1));
         match self.insert_buf_tx.try_send(wait_item) {
             Ok(_) => {
-                wg.wait().await;
+                // Closed in the meantime: the processor releases every buffered marker on its
+                // way out, but one that arrives after that would never be released.
+                if !self.is_closed.load(Ordering::SeqCst) {
+                    wg.wait().await;
+                }
                 Ok(())
             }
             Err(e) => Err(CacheError::SendError(format!(
@@ -648,6 +652,8 @@ where
         self.clear().await?;
         #[cfg(transparencies_stretto_verif)]
         crate::verif::sched::point("close:after_clear");
+        // From here on nobody may start waiting for the processor any more.
+        self.is_closed.store(true, Ordering::SeqCst);
         // Block until processItems thread is returned
         self.stop_tx.send(()).await.map_err(|e| {
             CacheError::SendError(format!("fail to send stop signal to working thread, {}", e))
@@ -655,7 +661,6 @@ where
         #[cfg(transparencies_stretto_verif)]
         crate::verif::sched::point("close:after_stop");
         self.policy.close().await?;
-        self.is_closed.store(true, Ordering::SeqCst);
         Ok(())
     }
 
@@ -806,6 +811,11 @@ where
         self.insert_buf_rx.close();
         self.clear_rx.close();
         self.stop_rx.close();
+        // Nobody is going to serve the insert buffer any more: release whoever waits on a
+        // marker in it.
+        while let Ok(item) = self.insert_buf_rx.try_recv() {
+            CacheCleaner::new(self).handle_item(item);
+        }
         Ok(())
     }
 
